@@ -548,6 +548,10 @@ func (se *SessionExecutor) handleSetAutoCommit(autocommit bool) (err error) {
 
 	// set autocommit = 1
 	if autocommit {
+		if se.status&mysql.ServerStatusAutocommit > 0 {
+			// autocommit is already on: like MySQL, leave an open (BEGIN-started) transaction untouched
+			return nil
+		}
 		se.status |= mysql.ServerStatusAutocommit
 		if se.status&mysql.ServerStatusInTrans > 0 {
 			se.status &= ^mysql.ServerStatusInTrans
